@@ -63,7 +63,7 @@ func runCPUSweep(r *kit.Run) {
 				}
 				w := map[string]any{"gomaxprocs": procs, "n": p.n, "t": p.t, "subset_ids": ids, "message": hx(msg), "secret": hx(secret[:])}
 				cls := fmt.Sprintf("size-%s", map[bool]string{true: "t", false: "above-t"}[len(ids) == p.t])
-				agg, err := tbls.ThresholdAggregate(ps)
+				agg, err := ckThresholdAggregate(ps)
 				switch {
 				case err != nil:
 					r.Violation(-1, "tbls/ThresholdAggregate/"+cls+"/error", fmt.Sprintf("GOMAXPROCS=%d: ThresholdAggregate failed for %d>=t=%d genuine partials: %v", procs, len(ids), p.t, err), w)
@@ -74,10 +74,10 @@ func runCPUSweep(r *kit.Run) {
 						r.Violation(-1, "tbls/Verify/"+cls+"/aggregate-rejected", fmt.Sprintf("GOMAXPROCS=%d: aggregate does not verify under the group key: %v", procs, err), w)
 					}
 				}
-				if rec, err := tbls.RecoverSecret(ss, uint(p.n), uint(p.t)); err != nil || rec != secret {
+				if rec, err := ckRecoverSecret(ss, uint(p.n), uint(p.t)); err != nil || rec != secret {
 					r.Violation(-1, "tbls/RecoverSecret/"+cls+"/wrong-secret", fmt.Sprintf("GOMAXPROCS=%d: RecoverSecret of %d>=t=%d genuine shares: err=%v", procs, len(ids), p.t, err), w)
 				}
-				if rp, err := tbls.RecoverPubkey(pk); err != nil || rp != group {
+				if rp, err := ckRecoverPubkey(pk); err != nil || rp != group {
 					r.Violation(-1, "tbls/RecoverPubkey/"+cls+"/wrong-group-key", fmt.Sprintf("GOMAXPROCS=%d: RecoverPubkey of %d>=t=%d genuine public shares: err=%v", procs, len(ids), p.t, err), w)
 				}
 				r.Count("cpu_sweep_subsets", 1)
